@@ -44,7 +44,7 @@ Lemma nni_apply_eval h q hx hy hxm hym ix iy jx jy ic e1 e2 ec ed1 ed2 edc :
   alookup e1 (hedges h) = Some ed1 -> alookup e2 (hedges h) = Some ed2 -> alookup ec (hedges h) = Some edc ->
   e1 <> e2 -> e1 <> ec -> e2 <> ec ->
   exists h', nni_apply_heap q h = HOk h' /\
-    nni_desc h h' x y xm ym ix iy jx jy e1 e2 ec (Nat.eqb (hright ed1) x) hx hy hxm hym ed1 ed2 edc.
+    nni_desc h h' x y xm ym ix iy jx jy e1 e2 ec (Nat.eqb (hright ed1) x || Nat.eqb (hright ed2) y) hx hy hxm hym ed1 ed2 edc.
 Proof.
   intros x y xm ym Hx Hy Hxm Hym N1 N2 N3 N4 N5 N6 Ic Ix Jx Iy Jy B1 B2 Bc L1 L2 L3 L4 E1 E2 Ec M1 M2 M3.
   assert (L1' : ix < length (hbr hx)) by (apply nth_error_Some; congruence).
@@ -58,7 +58,7 @@ Proof.
     | rewrite B1 | rewrite B2 | rewrite Bc | rewrite E1 | rewrite E2 | rewrite Ec
     | rewrite (proj2 (Nat.ltb_lt _ _) L1) | rewrite (proj2 (Nat.ltb_lt _ _) L2) | rewrite (proj2 (Nat.ltb_lt _ _) L3)
     | rewrite (proj2 (Nat.ltb_lt _ _) L4) | rewrite (proj2 (Nat.ltb_lt _ _) L1') | rewrite (proj2 (Nat.ltb_lt _ _) L2') ].
-  destruct (Nat.eqb (hright ed1) x) eqn:Fl.
+  destruct (Nat.eqb (hright ed1) x || Nat.eqb (hright ed2) y) eqn:Fl.
   all: repeat first
     [ progress cbn [hbind hleft hright hinfo hnodes hedges hroot hnextn hnexte set_node set_edge fst snd hname hcom hneigh hbr negb flip]
     | progress look
